@@ -32,7 +32,7 @@ ASSUMPTIONS = ["one actor runs at a time (sequentially consistent interleavings 
                "a started timer may expire at any later instant until cancel() has been called (threading.Timer semantics)"]
 REQUIRED_COUNTERS = ["schedules", "preempted_schedules", "timer_fired_between", "sn.judged", "cbf.instances_judged", "cbf.cancel_vs_expiry_races", "cbf.rebuffered_after_cancellation_judged",
                      "pv.judged", "ls.requests_judged", "ls.reply_vs_request_races", "lock_waits",
-                     "ls.executions_with_a_refused_ls_request_frame"]
+                     "ls.executions_with_a_refused_ls_request_frame", "cbf.executions_with_a_refused_geo_broadcast_frame"]
 
 LAT, LON = 415000000, 21000000
 _INS = None
@@ -92,7 +92,10 @@ def gen_scenario(rng, fam, force_rebuffer=None):
         for a in actors:
             if not a or (len(a) < 3 and rng.random() < 0.3):
                 a.append({"op": rng.choice(("gbc", "refresh", "rx_shb2")), "tag": t()})
-        return {"fam": fam, "actors": actors, "prefire_ls": False, "seedpos": rng.randrange(1000), "rebuffer": rebuffer}
+        sc = {"fam": fam, "actors": actors, "prefire_ls": False, "seedpos": rng.randrange(1000), "rebuffer": rebuffer}
+        if rng.random() < 0.25:
+            sc["refuse_gbc_frame"] = rng.choice((1, 1, 2))
+        return sc
     elif fam == "ls":
         actors = [[] for _ in range(n_act)]
         nreq = rng.choice((1, 2, 2, 3))
@@ -159,6 +162,14 @@ class CaptureLL:
                 from flexstack.linklayer.exceptions import SendingException
                 raise SendingException("interface busy (injected)")
         self.ctx.sent.append((s.step_no if s else -1, a.name if a else "main", bytes(packet)))
+        kg = self.ctx.spec.get("refuse_gbc_frame")
+        if kg and len(packet) > 5 and (packet[5] >> 4) == W.HT_GBC:
+            self.ctx.gbc_frames = getattr(self.ctx, "gbc_frames", 0) + 1
+            if self.ctx.gbc_frames == kg:
+                # fault injection: the interface refuses this geo-broadcast frame (it stays in the log: the router did try)
+                self.ctx.refused_gbc = getattr(self.ctx, "refused_gbc", 0) + 1
+                from flexstack.linklayer.exceptions import SendingException
+                raise SendingException("interface busy (injected)")
         if a is not None:
             s.sync_point(a, "transmit")
 
@@ -439,6 +450,8 @@ def judge(ctx, res):
             res.count("cbf.cancel_vs_expiry_races")
     if getattr(ctx, "refused", 0):
         res.count("ls.executions_with_a_refused_ls_request_frame")
+    if getattr(ctx, "refused_gbc", 0):
+        res.count("cbf.executions_with_a_refused_geo_broadcast_frame")
     # LS conservation
     unknown_tags = [o["tag"] for ops in spec["actors"] for o in ops if o["op"] == "guc_unknown"]
     if unknown_tags:
@@ -527,6 +540,9 @@ def shards(tier, seed):
         for i in range(n_scn):
             # every tier has one CBF scenario of the buffered-cancelled-buffered-again kind
             spec = gen_scenario(rng, fam, force_rebuffer=(i == 0) if fam == "cbf" else None)
+            if fam == "cbf" and i == 1:
+                # ... and one in which the interface refuses the first geo-broadcast frame the station puts on the air
+                spec["refuse_gbc_frame"] = 1
             if fam == "ls" and i == 0:
                 # every tier has one location-service scenario in which the interface refuses one LS Request frame
                 spec["refuse_ls_frame"] = spec.get("refuse_ls_frame") or rng.choice((1, 2))
